@@ -569,6 +569,17 @@ pub mod verif {
     pub fn weight_work_get() -> u64 {
         WORK.with(|w| w.get())
     }
+
+    /// Instructions executed by all interpreters of this process (covenants of a transaction run on
+    /// worker threads, so this one is process-wide).
+    static STEPS: std::sync::atomic::AtomicU64 = std::sync::atomic::AtomicU64::new(0);
+    pub(crate) fn step_bump() {
+        STEPS.fetch_add(1, std::sync::atomic::Ordering::Relaxed);
+    }
+    /// Reads the process-wide count of executed instructions.
+    pub fn steps_executed() -> u64 {
+        STEPS.load(std::sync::atomic::Ordering::Relaxed)
+    }
 }
 
 #[cfg(test)]
